@@ -141,6 +141,17 @@ impl RateLoader {
             debug!("RateLoader::get_exact_usd_cad_rate {} not yet loaded", year);
             let rates = self.fetch_usd_cad_rates_for_date_year(&trade_date).await?;
             self.year_rates.insert(year, rates);
+        } else if !self.year_rates[&year].contains_key(&trade_date)
+            && !self.fresh_loaded_years.contains(&year)
+            && trade_date <= today_local()
+        {
+            // The year was loaded from the cache, which was validated against an
+            // earlier date only. It was written before trade_date's rate could be
+            // known, so apply the same invalidation check as on the first load
+            // (instead of silently falling back to an older rate).
+            debug!("RateLoader::get_exact_usd_cad_rate {} is stale", year);
+            let rates = self.fetch_usd_cad_rates_for_date_year(&trade_date).await?;
+            self.year_rates.insert(year, rates);
         }
         let year_rates = self.year_rates.get(&year).unwrap();
         if let Some(rate) = year_rates.get(&trade_date) {
